@@ -120,6 +120,49 @@ func specialDefs() []struct {
 	return out
 }
 
+// caseDefs: parsable string traits whose cells are distinct as Go strings but run into one another,
+// or into the names of the values, once letter case is ignored — valid definitions (the cells
+// are pairwise distinct), with and without -caseInsensitive: cells differing only by case, a cell
+// that is the lower-cased name of ANOTHER value, of its OWN value, of a value's name in upper
+// case, the same across two parsable traits, and on a named string type.
+func caseDefs() []struct {
+	E        *EnumSpec
+	Parsable []string
+} {
+	type sp = struct {
+		E        *EnumSpec
+		Parsable []string
+	}
+	mk := func(label, kind string, names []string, cols ...[]string) sp {
+		e := &EnumSpec{Type: "Unit", Underlying: "int", Label: label}
+		var parsable []string
+		for j := range cols {
+			n := fmt.Sprintf("_Sym%d", j)
+			e.Traits = append(e.Traits, TraitCol{Name: n, Kind: kind})
+			parsable = append(parsable, strings.TrimPrefix(n, "_"))
+		}
+		for i, name := range names {
+			l := EnumLine{Name: name, Value: fmt.Sprint(i)}
+			for _, col := range cols {
+				c := fmt.Sprintf("%q", col[i])
+				if kind == "tstring" {
+					c = "Label(" + c + ")"
+				}
+				l.Cells = append(l.Cells, c)
+			}
+			e.Lines = append(e.Lines, l)
+		}
+		return sp{e, parsable}
+	}
+	return []sp{
+		mk("parsable_cells_differ_only_by_case", "ustring", []string{"Metre", "Mega", "Kilo"}, []string{"m", "M", "k"}),
+		mk("parsable_cell_is_lowercased_other_name", "ustring", []string{"Red", "Green", "Blue"}, []string{"green", "BLUE", "x"}),
+		mk("parsable_cell_is_lowercased_own_name", "ustring", []string{"Red", "Green", "Blue"}, []string{"red", "GREEN", "bLUE"}),
+		mk("parsable_cells_collide_across_traits_by_case", "ustring", []string{"Red", "Green", "Blue"}, []string{"x", "y", "z"}, []string{"Y", "Z", "X"}),
+		mk("parsable_named_string_cells_differ_by_case", "tstring", []string{"Ab", "Cd", "Ef"}, []string{"aB", "AB", "cD"}),
+	}
+}
+
 func ciCollision() *EnumSpec {
 	e := plainEnum("names_differ_only_by_case", "int", 0)
 	e.Lines = []EnumLine{{Name: "Red", Value: "0"}, {Name: "RED", Value: "1"}, {Name: "Blue", Value: "2"}}
@@ -286,7 +329,10 @@ func sortDefs() []*SortSpec {
 // sortNamed: the named key types of the gsort catalogue (each gets a String() method in the
 // definition file): one per kind of underlying type a struct field can have.
 var sortNamed = [][2]string{{"Category", "int"}, {"State", "bool"}, {"Label", "string"}, {"Score", "float64"},
-	{"Level", "uint8"}, {"Glyph", "rune"}, {"Span", "time.Duration"}}
+	{"Level", "uint8"}, {"Glyph", "rune"}, {"Span", "time.Duration"},
+	// not comparable (no ==, no <): keys only through the accessor, and they make the element
+	// struct itself non-comparable
+	{"Labels", "[]string"}, {"Index", "map[string]int"}}
 
 // sortKeyDefs: every named key type read through its String() accessor — and, where the type
 // has a `<` of its own (everything but bool), also plainly — as the only, first, middle and last
@@ -306,8 +352,8 @@ func sortKeyDefs(whole bool) []*SortSpec {
 		}
 		n := 0
 		for _, acc := range []string{",String()", ""} {
-			if acc == "" && under == "bool" {
-				continue // a named bool is a key only through an accessor
+			if acc == "" && (under == "bool" || strings.HasPrefix(under, "[]") || strings.HasPrefix(under, "map[")) {
+				continue // a named bool / slice / map is a key only through an accessor
 			}
 			for pi, p := range pos {
 				name := strings.ToUpper(p[:1]) + p[1:]
@@ -350,7 +396,15 @@ func sortKeyDefs(whole bool) []*SortSpec {
 		s.Fields = append(s.Fields, f)
 		s.Fields[0].Tags = append(s.Fields[0].Tags, fmt.Sprintf("By%d,2", i), fmt.Sprintf("*Then%d,1", i))
 	}
-	return append(out, s)
+	out = append(out, s)
+	// element structs that are not comparable because of UNTAGGED fields: value and pointer
+	// sorters, with and without an accessor key
+	out = append(out,
+		&SortSpec{Type: "Rec", Label: "noncomparable_untagged_fields", Fields: []SortField{
+			{"Cat", "Category", []string{"ByCat,1,String()", "*PByCat,1,String()", "Plain,2"}},
+			{"Tags", "[]string", nil}, {"Attrs", "map[string]any", nil}, {"Hook", "func() error", nil},
+			{"Name", "string", []string{"ByCat,2", "*PByCat,2", "Plain,1", "*PPlain,1"}}}})
+	return out
 }
 
 func sortNearMiss() []*SortSpec {
@@ -493,6 +547,15 @@ func quickSpecs(r *rand.Rand) []*Spec {
 	for _, sp := range nearMissDefs() {
 		add("nearmiss", sp.E, withParsable(defaultOpts(), sp.Parsable))
 	}
+	// letter case: every shape with -caseInsensitive, the first two also without
+	for i, sp := range caseDefs() {
+		on := settings[r.IntN(32)]
+		on.CI, on.DisableTraits = true, false
+		add("case", sp.E, withParsable(on, sp.Parsable))
+		if i < 2 {
+			add("case", sp.E, withParsable(defaultOpts(), sp.Parsable))
+		}
+	}
 	for i, e := range doubleImportDefs() {
 		add("imports", e, withParsable(defaultOpts(), nil))
 		if i%2 == 0 {
@@ -569,6 +632,9 @@ func thoroughSpecs(r *rand.Rand, cap int) []*Spec {
 		add("special", ciCollision(), withParsable(s, nil))
 		for _, sp := range nearMissDefs() {
 			add("nearmiss", sp.E, withParsable(s, sp.Parsable))
+		}
+		for _, sp := range caseDefs() {
+			add("case", sp.E, withParsable(s, sp.Parsable))
 		}
 	}
 	for _, e := range doubleImportDefs() {
